@@ -33,6 +33,9 @@ func (e c19Ev) String() string {
 	if e.Method == "POST" {
 		return fmt.Sprintf("POST %s->%s", shortURL(e.URL), strings.TrimPrefix(e.Origin, "post"))
 	}
+	if e.Method == "EVICT" {
+		return "EVICT one stored response"
+	}
 	n := ""
 	if e.Nest {
 		n = " +POST meanwhile"
@@ -49,6 +52,17 @@ func shortURL(u string) string {
 
 // c19Apply performs one exchange with a deterministic origin (no counters, no clock advance).
 func c19Apply(w *world.W, e c19Ev) *world.Obs {
+	if e.Method == "EVICT" {
+		// an external clean-up (the documented way to bound a cache directory) removes one stored response: the
+		// first key in sorted order that does not hold an index
+		for _, k := range w.Conn.Keys() {
+			if v, _ := w.Conn.Peek(k); len(v) > 0 && v[0] != '[' {
+				_ = w.Conn.Delete(k)
+				break
+			}
+		}
+		return &world.Obs{}
+	}
 	stale := httpDate(w.Epoch.Add(-secs(1000)))
 	answerFn(w, func(o *world.Origin, c *world.Call) (*http.Response, error) {
 		if c.Method == "POST" {
@@ -246,6 +260,9 @@ func c19Scenarios(tier string) []c19Scenario {
 				}
 			}
 			evs = append(evs, post(U, true), post(U, false), get(U2, "", "long", "", "304"), c19Ev{"POST", U2, "", "post200loc", "", "", false})
+			if og == "long" {
+				evs = append(evs, c19Ev{Method: "EVICT", URL: U})
+			}
 			scs = append(scs, c19Scenario{fmt.Sprintf("%s vary{%q,%q}", og, vp[0], vp[1]), evs})
 		}
 	}
@@ -472,6 +489,9 @@ func customC19(t *testing.T, e *mc.Explorer) *mc.ShardResult {
 func c19EvClass(ev c19Ev) string {
 	if ev.Method == "POST" {
 		return "POST"
+	}
+	if ev.Method == "EVICT" {
+		return "EVICT"
 	}
 	return fmt.Sprintf("GET [%s vary=%q cond->%s]", ev.Origin, ev.Vary, ev.Val)
 }
